@@ -101,7 +101,7 @@ func (xaManager *XAResourceManager) xaTwoPhaseTimeoutChecker() {
 						return true
 					}
 
-					if time.Now().Sub(connectionXA.prepareTime) > xaManager.config.TwoPhaseHoldTime {
+					if connectionXA.heldLongerThan(xaManager.config.TwoPhaseHoldTime) {
 						if err := connectionXA.CloseForce(); err != nil {
 							log.Errorf("Force close the xa xid:%s physical connection fail", connectionXA.txCtx.XID)
 						}
